@@ -1,1 +1,4 @@
 pub mod expr;
+pub mod isa;
+pub mod program;
+pub mod refasm;
